@@ -89,6 +89,14 @@ def one_config(job):
             n = kw["slices_x"] * kw["slices_y"]
             # not always a multiple of the slice count: low-delay slices then differ in size
             kw["picture_bytes"] = n * rng.randint(8, 64) + (rng.randrange(0, n) if rng.random() < 0.7 else 0)
+        if not kw["lossless"] and not large and rng.random() < 0.12:
+            # the bottom of the allowed range: slices of 1..4 bytes (low delay: 0..3-bit length fields; high quality:
+            # barely room for the length bytes), evenly and unevenly divided
+            n = kw["slices_x"] * kw["slices_y"]
+            if kw["profile"] == "ld":
+                kw["picture_bytes"] = n * rng.choice([1, 1, 2, 3, 4]) + rng.choice([0, 0, rng.randrange(0, n)])
+            else:
+                kw["picture_bytes"] = 4 * n + rng.choice([0, 1, n - 1, n, 2 * n + 1])
         cf = common.make_codec_features(**kw)
         res["config"] = common.describe_config(kw)
         vp, pcm = cf["video_parameters"], cf["picture_coding_mode"]
